@@ -123,11 +123,15 @@ def run(ctx):
     exp, got = ec.evaluate(ctx, cases, THEOREM)
     for c, e, g_ in list(zip(cases, exp, got))[:3]:
         ctx.sample({'query': c['q'], 'A': c['A'], 'model': e, 'implementation': {k2: g_.get(k2) for k2 in ('events', 'pulls', 'error')} if isinstance(g_, dict) else g_})
+    # corners outside the Coq value domain, against a harness-side specification
+    importlib.import_module('props.c03x').run(ctx, THEOREM)
     # rbql-js/rbql.js is an anchor of this property too: the JavaScript leg runs language-neutral queries of this shape through rbql-js
     importlib.import_module('props.c19').js_leg(ctx, THEOREM, 'agg', 600 if ctx.tier == 'quick' else 60000)
 
 
 def replay(ctx, case):
+    if str(case.get('part', '')).startswith('c03x'):
+        return importlib.import_module('props.c03x').replay(ctx, case, THEOREM)
     if case.get('impl') == 'js':
         return importlib.import_module('props.c19').replay(ctx, case)
     ec.replay(ctx, case, THEOREM)
